@@ -985,7 +985,7 @@ class World:
         if dh == h and dest in model.subtree(uid):
             return "skipped"
         if dh != h and self.version(h) != self.version(dh) and any(
-                model.recs[u]["cls"].endswith("DrillholeGroup") and any(model.recs[c]["kind"] != "data" and "Drillhole" not in model.recs[c]["cls"] for c in model.recs[u]["children"])
+                model.recs[u]["cls"].endswith("DrillholeGroup") and any(model.recs[c]["kind"] != "data" and model.recs[c]["cls"] not in ("Drillhole", "ConcatenatedDrillhole") for c in model.recs[u]["children"])
                 for u in model.subtree(uid)):
             return "skipped"    # (a version-1.0 drillhole group that holds other things than holes has no counterpart in the concatenated store)
         ent = self.ent(h, uid)
